@@ -33,11 +33,7 @@ Definition quoted_safe (raw : bytes) : bool := negb (has_raw_ctl raw) && no_brac
 Fixpoint has_escaped_triple (s : bytes) : bool :=
   match s with
   | [] => false
-  | b :: r =>
-    match s with
-    | 92 :: 34 :: 34 :: 34 :: _ => true
-    | _ => has_escaped_triple r
-    end
+  | b :: r => if starts_esc_triple s then true else has_escaped_triple r
   end.
 (* BlockStringValueContentRawBytes finds the delimiters again *)
 Definition rescan_exact (raw : bytes) : bool := bytes_eqb (block_rescan raw) raw.
